@@ -183,3 +183,17 @@ Theorem C13_code_partition_OVERLAP :
   ltac:(let t := type of C13_code_partition_overlap_join in exact t).
 Proof. exact C13_code_partition_overlap_join. Qed.
 Print Assumptions C13_code_partition_OVERLAP.
+
+(* ---- tie: WHICH function verifies a candidate, as read from utils/simfunctions.py on this run
+   (Gen/SimFunctionsGen.v): the py_stringmatching measures themselves (and the local set-intersection
+   count for OVERLAP) -- a locally re-implemented measure would appear as "local:<name>" *)
+From SSJ Require Import SimFunctionsGen.
+Theorem sim_functions_of_source_are_library_measures :
+  sim_function_table =
+  [("COSINE", "py_stringmatching.similarity_measure.cosine.Cosine.get_raw_score");
+   ("DICE", "py_stringmatching.similarity_measure.dice.Dice.get_raw_score");
+   ("EDIT_DISTANCE", "py_stringmatching.similarity_measure.levenshtein.Levenshtein.get_raw_score");
+   ("JACCARD", "py_stringmatching.similarity_measure.jaccard.Jaccard.get_raw_score");
+   ("OVERLAP", "local:overlap");
+   ("OVERLAP_COEFFICIENT", "py_stringmatching.similarity_measure.overlap_coefficient.OverlapCoefficient.get_raw_score")]%string.
+Proof. reflexivity. Qed.
